@@ -262,3 +262,43 @@ Proof.
   intros Hc Hin a Ha. destruct (pipeline_formula_origin raw d pb Hin a Ha) as (conf & b0 & Hb0 & ->).
   rewrite rcs_cmps. apply Hc, Hb0.
 Qed.
+
+(* ---------- the constant signature is what the emitted declarations say ---------- *)
+Lemma csig_of_decls_app a b : csig_of_decls (a ++ b) = csig_of_decls a ++ csig_of_decls b.
+Proof.
+  induction a as [|d a IH]; [reflexivity|]. cbn [app csig_of_decls]. destruct (decl_meaning d); rewrite IH; reflexivity.
+Qed.
+Lemma csig_mapi {A} (f : N -> A -> tff_decl) (g : A -> option (string * cmeaning)) l :
+  (forall i x, decl_meaning (f i x) = g x) -> forall i,
+  csig_of_decls (mapi_from f i l) = flat_map (fun x => match g x with Some e => [e] | None => [] end) l.
+Proof.
+  intros H. induction l as [|x l IH]; intros i; [reflexivity|]. cbn [mapi_from csig_of_decls flat_map].
+  rewrite H, IH. destruct (g x); reflexivity.
+Qed.
+Theorem csig_of_emit p : csig_of_decls (tp_decls (emit p)) = problem_csig p.
+Proof.
+  unfold emit, problem_csig. cbn [tp_decls]. rewrite !csig_of_decls_app.
+  assert (E0 : csig_of_decls (map (fun d => mkdecl (fst (fst d)) (snd (fst d)) (snd d)) preamble_decls) = [])
+    by (vm_compute; reflexivity).
+  rewrite E0. cbn [app].
+  rewrite (csig_mapi predicate_decl (fun _ => None)) by (intros i q; reflexivity).
+  rewrite (csig_mapi symbol_decl (fun s => Some (s, CSelf))).
+  2:{ intros i s. unfold decl_meaning, symbol_decl. cbn [d_sig d_name d_ident]. rewrite prefix_app. reflexivity. }
+  rewrite (csig_mapi fconst_decl (fun c => Some ((fcname c ++ suffix (fcsort c))%string, CPlace (fcname c) (fcsort c)))).
+  2:{ intros i c. unfold decl_meaning, fconst_decl. cbn [d_sig d_name d_ident].
+      change (String.prefix "type_symbol_" ("type_function_constant_" ++ nat_str i)) with false.
+      rewrite prefix_app, decode_suffix. reflexivity. }
+  assert (F0 : forall l : list pred, flat_map (fun _ : pred => @nil (string * cmeaning)) l = []).
+  { induction l; cbn; auto. }
+  rewrite F0. cbn [app]. reflexivity. (* flat_map of singletons and map are convertible *)
+Qed.
+
+(* ---------- C06 in a problem context ---------- *)
+Theorem in_problem_meaning p a FI M : ident_ok p = true -> In a (pb_formulas p) ->
+  forall te e, env_rel te e ->
+  (tff_sat (tstruct_in (csig_of_decls (tp_decls (emit p))) FI M) te (tff_of_formula (pf_formula a))
+   <-> csat FI M e (pf_formula a)).
+Proof.
+  intros Hok Hin te e HR. rewrite csig_of_emit. apply tff_of_formula_sat_in; [|exact HR].
+  apply ctx_names_in; assumption.
+Qed.
